@@ -452,7 +452,7 @@ def main(tier):
         explanation="Bounded symbolic execution of config.write -> config.load (with _pop_flag and the FLAGS object) with every FontConfig field symbolic, iterating FontConfig._fields of the live class, and of the parts JSON round trip; toml/json replaced by identity-on-dict stubs whose contract is checked against the real libraries. Glyph-name distinctness/legality is decided in C04 (same kernel).",
         bounds={"ints": "[-5000,5000]", "reuse_tolerance": "[-1,10]", "transform": "six reals in [-100,100] through Affine2D.tostring/fromstring with tokens", "axes/masters": "1 master, or 2 masters x 2 axes with symbolic positions",
                 "flags": "none / each single flag / all flags", "strings": "distinct concrete constants (incl. spaces)"},
-        outside=["CSV dialect of the glyph map (_csv is C)", "codepoints.from_filename (regex C extension)", "real toml/json text formatting", "shlex/ninja quoting"],
+        outside=["CSV dialect of the glyph map (_csv is C)", "the regex engine's matching order inside codepoints.from_filename (the pattern's language is decided; how the C engine cuts a name is sampled)", "real toml/json text formatting", "shlex/ninja quoting"],
         assumptions=["toml round-trips int/float/bool/str/nested tables and drops None (checked concretely once per run)", "json stub is the identity on the dict"],
         shims=["nanoemoji.config int/float", "picosvg.svg_transform.float (token strings)", "nanoemoji.parts int/float"],
         stubs=["toml -> TomlStub", "FLAGS -> attribute bag", "Path -> StubPath(write_text/parent)", "json -> JsonStub"],
